@@ -1170,7 +1170,7 @@ class CSSSerializer:
                     dim = ''
 
                 # keep '+' if given
-                if val != '0' and value._sign == '+':
+                if val != '0' and value._sign == '+' and not val.startswith('-'):
                     sign = '+'
                 else:
                     sign = ''
